@@ -215,6 +215,10 @@ func (w *World) Load(sr *SavedRoot, store mast.Persist, cache mast.NodeCache, vi
 			l := *root.Link
 			root.Link = &l
 		}
+		if viaJSON && root.NodeFormat == ref.FormatV1 && len(sr.Model)%2 == 0 {
+			// roots written before the format field existed carry no NodeFormat and mean v1marshaler
+			root.NodeFormat = ""
+		}
 		if viaJSON {
 			b, err := json.Marshal(root)
 			if err != nil {
